@@ -25,6 +25,9 @@ def build(ctx, h, variant):
                   uid=600 + i, gid=700 + i, now=1000000, rnd=bytes(r.randrange(256) for _ in range(24)))
              for i, (c, m, z, n, au, rl) in enumerate([(4, 5, 0, 40, cc.ANY, b""), (2, 3, 0, 17, cc.ANY, b""), (3, 5, 3, 300, cc.ANY, b"realm\0"),
                                                       (5, 6, 0, 5, cc.ANY, b""), (0, 5, 0, 9, cc.ANY, b""), (4, 5, 0, 12, 4242, b""),
+                                                      # a second restricted credential with another encoder identity and payload: what an unauthorised
+                                                      # client is told must not depend on which of the two it presented
+                                                      (4, 5, 0, 31, 4242, b""),
                                                       # inner layer (41 + n bytes) an exact multiple of the block size: the last cipher block is pure padding
                                                       (4, 5, 0, 23, cc.ANY, b""), (2, 3, 0, 7, cc.ANY, b""), (5, 6, 0, 39, cc.ANY, b"")])]
     pre = ["cred conf mackey=%s dekkey=%s" % (K.MK.hex(), K.DK.hex())]
@@ -42,9 +45,12 @@ def build(ctx, h, variant):
             ops.append("cred req %s now=%d peer=%s mem=-" % (cc.hx(cc.dec_req(K.rearmor(raw2), retry=retry)), now, peer))
             kinds.append(kind)
         # soft errors keep data (control)
-        dec(raw, "ok" if e["auth_uid"] == cc.ANY else "unauth")
-        dec(raw, "expired" if e["auth_uid"] == cc.ANY else "unauth", now=1000400)
-        dec(raw, "rewound" if e["auth_uid"] == cc.ANY else "unauth", now=999000)
+        una = ("unauth", e["uid"], e["gid"])
+        dec(raw, "ok" if e["auth_uid"] == cc.ANY else una, retry=retry if e["auth_uid"] == cc.ANY else 0)
+        dec(raw, "expired" if e["auth_uid"] == cc.ANY else una, now=1000400, retry=retry if e["auth_uid"] == cc.ANY else 0)
+        dec(raw, "rewound" if e["auth_uid"] == cc.ANY else una, now=999000, retry=retry if e["auth_uid"] == cc.ANY else 0)
+        if e["auth_uid"] != cc.ANY:
+            dec(raw, una, peer="77:88", retry=0)
         # hard errors with plenty of credential content behind them
         dec(raw[:len(raw) - 3], "hard")
         dec(raw[:3] + bytes([9]) + raw[4:], "hard")
@@ -99,6 +105,19 @@ def make_oracle(kinds):
         retry = int(bytes.fromhex(op.split()[2][12:14]).hex(), 16)
         if rsp.raw != error_only(retry, rsp.error_num, rsp.error_str.rstrip(b"\0")):
             return "failure reply (code %d) carries more than an error code and message" % rsp.error_num
+        if isinstance(k, tuple) and k[0] == "unauth":
+            # non-interference: the reply to a client that is not authorised is a function of that client and the error, never of
+            # the credential's interior (encoder identity, payload): credentials of different encoders get byte-identical replies
+            peer = [w for w in op.split() if w.startswith("peer=")][0]
+            txt = rsp.error_str.rstrip(b"\0").decode("latin1")
+            import re as _re
+            nums = _re.findall(r"\d+", txt)
+            if str(k[1]) in nums or str(k[2]) in nums:
+                return "the UNAUTHORIZED reply names the credential's encoder (uid %d / gid %d): '%s'" % (k[1], k[2], txt)
+            prev = st["tail"].setdefault(("unauth", peer), rsp.raw)
+            if prev != rsp.raw:
+                return "two credentials of different encoders are answered differently to the same unauthorised client (%s): '%s'" % (peer, txt)
+            return None
         if isinstance(k, tuple):
             if rsp.error_num != 14 or rsp.error_str != b"Invalid credential\0":
                 return "ciphertext-tail manipulation answered with code %d '%s' instead of the generic invalid-credential reply" % (
@@ -111,7 +130,7 @@ def make_oracle(kinds):
 
 
 def run(ctx):
-    ctx.rule = ("for 9 credentials (AES128, Blowfish, CAST5+zlib+realm, AES256, none, restricted, and three whose last cipher block is pure padding): control decodes (ok / expired / rewound or unauthorised at 3 clocks) and hard failures "
+    ctx.rule = ("for 10 credentials (AES128, Blowfish, CAST5+zlib+realm, AES256, none, two restricted ones of different encoders - the replies to an unauthorised client must be byte-identical for both and name neither encoder -, and three whose last cipher block is pure padding): control decodes (ok / expired / rewound or unauthorised at 3 clocks) and hard failures "
                 "(truncation, bad zip/cipher type, bad version, identity query failure, retry overflow) each with the full reply bytes compared to the error-only form; every byte of the last "
                 "cipher block flipped at bits 0 and 7, flips in the previous block and in the MAC, a removed and an appended block, partial blocks removed and appended: all replies of one credential must be identical bytes. "
                 "distinct = distinct op lines")
